@@ -20,6 +20,42 @@ class Check(MacroCheck):
     runtime = Runtime()
     facts_of_interest = r'(call unmock|arm \S*Unmock|call report|arm any)'
 
+    def explore_into(self, rep, tier, seed, ir=True, merge=False):
+        super().explore_into(rep, tier, seed, ir=ir, merge=merge)
+        self.nostd_cannot_unmock(rep)
+
+    def nostd_cannot_unmock(self, rep):
+        """unimock built WITHOUT std: a call that resolves to the real implementation of a method without a registered function, made in a
+        frame that owns the original, must still end in an ordinary (catchable) panic naming the method — not in a process abort"""
+        import os, subprocess
+        from .. import engine, scn
+        from ..scn import Pat, seg, term
+        hb = os.path.join(engine.VERIF, 'harness_nostd')
+        if not os.path.exists(os.path.join(hb, 'Cargo.lock')):
+            import shutil; shutil.copy('/repo/Cargo.lock', os.path.join(hb, 'Cargo.lock'))
+        rc, out, err = engine.sh(['cargo', 'build', '--offline', '--bin', 'replay'], cwd=hb)
+        if rc != 0:
+            path = engine.write_replay(self.prop, 'build', (out + err)[-6000:], ["the harness no longer builds against /repo without the std feature"])
+            rep.violation(path, "no_std configuration of the harness does not build against /repo", no_input=True)
+            return
+        exe = os.path.join(hb, 'target', 'debug', 'replay')
+        n = 0
+        for name, mode, tree in (('explicit', 'strict', term(1, 'each', Pat(mask=255, chain=[seg('unm', 'al0')]))),
+                                 ('fallthrough', 'partial', scn.UNIT),
+                                 ('rejected', 'partial', term(1, 'each', Pat(mask=1, chain=[seg('ret1', 'al0')])))):
+            for also in ('', '1'):
+                evs = [scn.build(0, 0, mode, tree)] + ([scn.clone(0, 1)] if also else []) + [[f"unwindcall i=0 t=0 m=1 a=2 also={also} wrap=0 fresh=0"]]
+                text = scn.scenario(f"cu_{name}{also}", evs)
+                p = subprocess.run([exe], input=text, capture_output=True, text=True, timeout=120)
+                n += 1
+                line = next((l for l in p.stdout.split('\n') if l.startswith('unwound')), '')
+                if p.returncode != 0 or 'U0::b cannot be unmocked' not in line:
+                    why = (f"the process died with status {p.returncode} ({p.stderr.strip()[-120:]})" if p.returncode != 0 else f"the call ended as `{line[:160]}`")
+                    path = engine.write_replay(self.prop, 'spec', text, [f"property C16 violated by the real code built without std (spin-lock + critical-section): a call resolving to the real implementation of U0::b, which has no registered function, made in a frame that owns the mock: {why}; required: an ordinary panic naming U0::b", "replay: /verif/harness_nostd/target/debug/replay < this file"])
+                    rep.violation(path, f"no_std build, scenario cu_{name}{also}: {why}")
+                    return
+        rep.coverage['nostd_cannot_unmock_cases'] = n
+
     def rule(self):
         return ("same bounded-exhaustive shape family as C05 with unmock_with in its three forms {none / `_`, path, path(listed "
                 "params in a shuffled order, possibly omitting some)} at every method position; the real generator's Unmock arm "
